@@ -11,7 +11,7 @@ import PdfModel.Model.Handwritten2
   `dict.expect("Font", "Type", "Font", true)?`                          `Derive.expect`
   the `/BaseFont` rule (absent only for Type3)                          `baseFont`
   `dict.remove("Encoding").map(Object::from_primitive).transpose()?`    `Derive.readEncoding` (C15/C19 model)
-  `dict.remove("ToUnicode")` → `Option<RcRef<Stream<()>>>`              recorded: `Plan.toUnicode` is the argument
+  `dict.remove("ToUnicode")` → `Some(RcRef::<Stream<()>>::from_primitive(p)?)` recorded: `Plan.toUnicode` is the argument
   `_other = dict.clone()`                                               `Plan.other`
   Type0: `/DescendantFonts` resolved, truncated to one element, put back `truncDescendants`
   `Type0Font::from_dict` / `TFont::from_dict` / `CIDFont::from_dict`     recorded: `Plan.loader`, `Plan.dict`
@@ -50,7 +50,8 @@ structure Plan where
   subtype : String
   name : Option String
   encoding : Option (String × FontEncoding.DMap String)
-  /-- the argument of `Option::<RcRef<Stream<()>>>::from_primitive`, if the key is there -/
+  /-- the argument of `RcRef::<Stream<()>>::from_primitive`, if the key is there (the `Option` is the key's presence:
+      a `null` value is handed to the reader of the reference and refused) -/
   toUnicode : Option Prim
   /-- `_other` -/
   other : Dict
@@ -143,8 +144,8 @@ structure FontV where
   toUnicode : Option Val
   data : FontData
 
-/-- the shape of `Font.to_unicode` -/
-def toUnicodeShape : Shape := .option (.rcRef (.leafApp "Stream" (.leaf "()")))
+/-- the shape read for a `/ToUnicode` entry that is there -/
+def toUnicodeShape : Shape := .rcRef (.leafApp "Stream" (.leaf "()"))
 
 def readToUnicode (cfg : Cfg) (sem : Sem) (env : Env) : Option Prim → R (Option Val)
   | none => .ok none
